@@ -50,8 +50,11 @@ impl<T: Value> ExpertEdge for Edge<T> {
     fn on_change(&self) {
         let mut handler = self.on_change.borrow_mut();
         if let Some(h) = &mut *handler {
-            let v = self.child.node.value_as_ref();
-            h(v.as_ref().unwrap());
+            /* This value is not necessarily set, because we also try to run this when connecting
+            the node to its children, which could be before they have run even once. */
+            if let Some(v) = self.child.node.value_as_ref() {
+                h(&v);
+            }
         }
     }
     fn packed(&self) -> NodeRef {
